@@ -113,6 +113,10 @@ func (m c05mon) Check(s *sim.Sim, st *sim.Step) []*sim.Violation {
 	allowed := map[string]bool{"Confirmed": true, "ConfirmSelector": true, "ConfirmVerifier": true}
 	if kind == "recover" {
 		allowed = map[string]bool{"Password": true, "RecoverSelector": true, "RecoverVerifier": true, "RecoverExpiry": true, "token-": true}
+		if s.Cfg.Has("lock") && s.Cfg.RecoverLogin {
+			// the recover-and-login is a login: the lock module records the attempt
+			allowed["AttemptCount"], allowed["LastAttempt"], allowed["Locked"] = true, true, true
+		}
 	}
 	for _, ch := range diff {
 		if ch.PID != tok.PID || !allowed[ch.Field] {
@@ -269,6 +273,9 @@ func c05Unit(c *RunCtx, unit int) {
 	}
 	if r.Intn(3) == 0 {
 		mods = append(mods, "register")
+	}
+	if r.Intn(2) == 0 {
+		mods = append(mods, "lock") // its login hooks save the user of a recover-and-login a second time
 	}
 	cfg := world.Cfg{Modules: shuffled(r, mods), Mount: pickS(r, "/auth", ""), JSON: r.Intn(3) == 0, RecoverLogin: r.Intn(2) == 0,
 		RecoverTTL: pickD(r, 24*time.Hour, 10*time.Minute, 3*time.Second), Secondary: r.Intn(3) == 0, Err500: r.Intn(2) == 0, LogoutMethod: "DELETE",
